@@ -144,14 +144,14 @@ func main() {
 	for _, st := range sts {
 		b := st.base
 		if b.Err != nil {
-			common.Broken("baseline run of %s: %v", st.p.Name, b.Err)
+			broken("baseline run of %s: %v", st.p.Name, b.Err)
 		}
 		if len(b.Steps) != 2 || b.Steps[0].Exit != 0 || b.Steps[1].Exit != 0 {
 			last := b.Steps[len(b.Steps)-1]
-			common.Broken("baseline generation of project %s failed at step %d (exit %d):\n%s", st.p.Name, len(b.Steps), last.Exit, last.Output)
+			broken("baseline generation of project %s failed at step %d (exit %d):\n%s", st.p.Name, len(b.Steps), last.Exit, last.Output)
 		}
 		if len(st.sites) == 0 {
-			common.Broken("baseline run of %s executed no instrumented map site (VERIF_MAPSITES_OUT not honoured?)", st.p.Name)
+			broken("baseline run of %s executed no instrumented map site (VERIF_MAPSITES_OUT not honoured?)", st.p.Name)
 		}
 		execs += 2
 		compared += 2
@@ -314,7 +314,7 @@ func main() {
 		for _, o := range outs {
 			st := stOf[o.job.spec.Project]
 			if o.res.Err != nil {
-				common.Broken("history %s could not be executed: %v", o.job.spec, o.res.Err)
+				broken("history %s could not be executed: %v", o.job.spec, o.res.Err)
 			}
 			execs += o.execs
 			compared += len(o.res.Steps)
@@ -613,7 +613,7 @@ func firstLine(s string) string {
 func replay(r *rig, path string) {
 	b, err := os.ReadFile(path)
 	if err != nil {
-		common.Broken("replay: %v", err)
+		broken("replay: %v", err)
 	}
 	var rf struct {
 		Signature string `json:"signature"`
@@ -622,7 +622,7 @@ func replay(r *rig, path string) {
 		} `json:"replay"`
 	}
 	if err := json.Unmarshal(b, &rf); err != nil {
-		common.Broken("replay: %v", err)
+		broken("replay: %v", err)
 	}
 	spec := rf.Replay.Spec
 	var p *project
@@ -632,17 +632,17 @@ func replay(r *rig, path string) {
 		}
 	}
 	if p == nil {
-		common.Broken("replay: unknown project %q", spec.Project)
+		broken("replay: unknown project %q", spec.Project)
 	}
 	fmt.Printf("replaying %s\n  signature: %s\n", spec, rf.Signature)
 	baseSpec := runSpec{Project: p.Name, StartDir: p.StartDirs[0], MaxProcs: 16, Steps: 2}
 	base := r.execute(0, p, nil, baseSpec, false)
 	if base.Err != nil || len(base.Steps) != 2 {
-		common.Broken("replay: baseline failed: %v", base.Err)
+		broken("replay: baseline failed: %v", base.Err)
 	}
 	got := r.execute(1, p, base.Steps[0].Tree, spec, false)
 	if base.Err != nil || got.Err != nil {
-		common.Broken("replay: %v %v", base.Err, got.Err)
+		broken("replay: %v %v", base.Err, got.Err)
 	}
 	for i, s := range got.Steps {
 		k := spec.firstStep() + i
